@@ -2189,24 +2189,19 @@ def _emit_block(
                 f"{indent}    unsigned long __redu_delay_ms = (__redu_step_delay <= 0.0f) ? 0UL : static_cast<unsigned long>(__redu_step_delay + 0.5f);"
             )
             lines.append(f"{indent}    for (int __redu_i = 1; __redu_i <= __redu_steps; ++__redu_i) {{")
-            lines.append(
-                f"{indent}      long __redu_num_red = static_cast<long>(__redu_target_red - __redu_start_red) * __redu_i;"
-            )
-            lines.append(f"{indent}      if (__redu_num_red >= 0L) {{ __redu_num_red += __redu_steps / 2; }}")
-            lines.append(f"{indent}      else {{ __redu_num_red -= __redu_steps / 2; }}")
-            lines.append(f"{indent}      int __redu_red = __redu_start_red + static_cast<int>(__redu_num_red / __redu_steps);")
-            lines.append(
-                f"{indent}      long __redu_num_green = static_cast<long>(__redu_target_green - __redu_start_green) * __redu_i;"
-            )
-            lines.append(f"{indent}      if (__redu_num_green >= 0L) {{ __redu_num_green += __redu_steps / 2; }}")
-            lines.append(f"{indent}      else {{ __redu_num_green -= __redu_steps / 2; }}")
-            lines.append(f"{indent}      int __redu_green = __redu_start_green + static_cast<int>(__redu_num_green / __redu_steps);")
-            lines.append(
-                f"{indent}      long __redu_num_blue = static_cast<long>(__redu_target_blue - __redu_start_blue) * __redu_i;"
-            )
-            lines.append(f"{indent}      if (__redu_num_blue >= 0L) {{ __redu_num_blue += __redu_steps / 2; }}")
-            lines.append(f"{indent}      else {{ __redu_num_blue -= __redu_steps / 2; }}")
-            lines.append(f"{indent}      int __redu_blue = __redu_start_blue + static_cast<int>(__redu_num_blue / __redu_steps);")
+            # Round each interpolated component exactly like the host's int(round(value)):
+            # to the nearest integer, a value exactly half-way to the even one.  The numerator
+            # start * steps + (target - start) * i is never negative; once the quotient is
+            # taken it is reused for twice the remainder.
+            for channel in ("red", "green", "blue"):
+                lines.append(
+                    f"{indent}      long __redu_num_{channel} = static_cast<long>(__redu_start_{channel}) * __redu_steps + static_cast<long>(__redu_target_{channel} - __redu_start_{channel}) * __redu_i;"
+                )
+                lines.append(f"{indent}      int __redu_{channel} = static_cast<int>(__redu_num_{channel} / __redu_steps);")
+                lines.append(f"{indent}      __redu_num_{channel} = 2L * (__redu_num_{channel} % __redu_steps);")
+                lines.append(
+                    f"{indent}      if ((__redu_num_{channel} > __redu_steps) || ((__redu_num_{channel} == __redu_steps) && ((__redu_{channel} % 2) != 0))) {{ ++__redu_{channel}; }}"
+                )
             lines.append(f"{indent}      {red_var} = __redu_red;")
             lines.append(f"{indent}      {green_var} = __redu_green;")
             lines.append(f"{indent}      {blue_var} = __redu_blue;")
